@@ -2709,7 +2709,7 @@ mod tests {
 }
 
 /// Simple glob pattern matching, byte-wise: keys are binary strings
-fn pattern_matches(pattern: &[u8], text: &[u8]) -> bool {
+pub(crate) fn pattern_matches(pattern: &[u8], text: &[u8]) -> bool {
     let pattern_chars = pattern;
     let text_chars = text;
     
